@@ -202,7 +202,7 @@ def match_known(prop_id, oracle, case, msg):
 
 LEAF0 = ['i', 0]
 _CHILD_LISTS = {'tuple': [1], 'list': [1], 'deque': [1], 'nt': [2], 'ss': [2], 'cg': [1], 'cu': [1],
-                'ci': [1], 'cq': [1], 'fn': [1], 'cl': [1], 'partial': [2]}
+                'ci': [1], 'co': [1], 'cq': [1], 'fn': [1], 'cl': [1], 'partial': [2]}
 _ITEM_LISTS = {'dict': 1, 'od': 1, 'dd': 2, 'cm': 1, 'cp': 1, 'dsn': 1}
 _SINGLE = {'cn': [1, 2], 'cs': [1, 2], 'dc': [1, 2], 'dci': [1, 2], 'ntc': [1, 2]}
 _HIST = {'dict': 2, 'od': 2, 'dd': 3, 'deque': 3}
